@@ -13,7 +13,11 @@ pub fn private_func_leading_underscore(source_unit: SourceUnit) -> HashSet<Loc> 
         ast::extract_target_from_node(Target::FunctionDefinition, source_unit.into());
 
     for node in target_nodes {
-        let contract_part = node.contract_part().unwrap();
+        //Free functions are source unit parts: they have no visibility and are skipped
+        let contract_part = match node.contract_part() {
+            Some(contract_part) => contract_part,
+            None => continue,
+        };
 
         if let pt::ContractPart::FunctionDefinition(box_fn_definition) = contract_part {
             if FunctionTy::Function != box_fn_definition.ty {
